@@ -171,6 +171,7 @@ let cmd_query (graph_file : string) =
             let rs = results q g in
             let sp = spec_results q g in
             Printf.printf "SPECSAME %s\n" (b01 (List.length rs = List.length sp && List.for_all2 (fun a b -> List.for_all2 (fun (x : node) (y : node) -> x.n_idpre = y.n_idpre) a b) rs sp));
+            List.iter (fun t -> Printf.printf "SPECTUPLE %s\n" (String.concat "|" (List.map pr_entity t))) sp;
             List.iter (fun t ->
                 Printf.printf "TUPLE %s\n" (String.concat "|" (List.map pr_entity t));
                 Printf.printf "ROW %s\n" (String.concat "|" (List.map (function Some v -> pr_val v | None -> "?") (row q t)))) rs);
